@@ -164,3 +164,17 @@ Example C05_source_order_nonvacuous :
   map marks_of (snd (fst (exec_phases no_input 2 w_twoloops))) = [[2; 3]; [2; 3]].
 Proof. exact source_order_example. Qed.
 Print Assumptions C05_source_order_nonvacuous.
+
+(* ---------------------------------------------------------------- the IR placement (what parse() builds) *)
+(* For every program: the numbered statements of setup_body are exactly those of the top-level
+   statements outside [while True:] (all nesting depths, source order), those of loop_body exactly
+   those of the [while True:] bodies, and loop_body is: one ButtonPoll per polled button (sorted),
+   one LCDTick per animated LCD (sorted), then user nodes only.  This is the function the
+   correspondence compares node by node with the real Program dataclasses. *)
+Theorem C05_ir_placement : forall its,
+  flat_map marks_irn (ir_setup its) = flat_map marks_stmt (flat_map setup_part its) /\
+  flat_map marks_irn (ir_loop its) = flat_map marks_stmt (flat_map loop_part its) /\
+  exists user, ir_loop its = map NPoll (poll_names its) ++ map NTick (tick_names its) ++ user /\
+               Forall (fun n => match n with NPoll _ | NTick _ => False | _ => True end) user.
+Proof. exact ir_placement. Qed.
+Print Assumptions C05_ir_placement.
